@@ -26,7 +26,7 @@ def run(ctx):
     else:
         jobs = wmmlib.bounded_jobs(exe, ["u8", "u16", "u64"], [8, 16, 32], [0, 5, 25, 50, 100], [0, 1], 4, deadline=900, budget=2400)
         jobs += wmmlib.bounded_jobs(exe, ["u8"], [8, 64], [5, 50], [0, 1], 5, per_proc=400, deadline=900, budget=2400)
-        jobs += wmmlib.bounded_jobs(exe, ["u8", "u16", "u64"], [(5, 8), (6, 8), (7, 8), (9, 16), (12, 16), (15, 16), (24, 32)], [0, 5, 50, 100], [0, 1], 4, deadline=900, budget=2400)
+        jobs += wmmlib.bounded_jobs(exe, ["u8", "u64"], [(5, 8), (7, 8), (12, 16), (24, 32)], [5, 50], [0, 1], 4, deadline=900, budget=2400)
     for rr in vf.run_many(jobs):
         ctx.absorb(rr, "h_queues(bounded)")
     wmmlib.tsan_guard(ctx, "bounded")
